@@ -45,3 +45,13 @@ Proof. exact not_submitted_nothing_written. Qed.
 Check c10_own_writes_do_not_wait.
 Print Assumptions c10_own_writes_do_not_wait.
 
+
+(* Interleavings (L3 monitor, faithful traces): the write-token holder never waits for another token and
+   always progresses; the wait-for graph is acyclic: the read routine cannot wait on itself. *)
+From MQ Require Import Sync SyncProofs.
+Theorem c10_wait_for_acyclic : ltac:(let t := type of wait_for_acyclic in exact t).
+Proof. exact wait_for_acyclic. Qed.
+Print Assumptions c10_wait_for_acyclic.
+Theorem c10_write_holder_waits_for_nothing : ltac:(let t := type of write_holder_waits_for_nothing in exact t).
+Proof. exact write_holder_waits_for_nothing. Qed.
+Print Assumptions c10_write_holder_waits_for_nothing.
